@@ -113,7 +113,7 @@ def pick_items(keys, rng, n_harvest):
     return items
 
 
-def variant_plan(rng, items, v):
+def variant_plan(rng, items, v, env_names=()):
     order = list(items)
     rng.shuffle(order)
     # neighbour set: drop a seeded share of the items
@@ -127,10 +127,13 @@ def variant_plan(rng, items, v):
         junk["SOURCE_DATE_EPOCH"] = str(rng.below(2000000000))
     if rng.below(2):
         junk["CARGO_PKG_NAME"] = "crate_%d" % rng.below(1000)
+    for n in env_names:  # variables the expanders were seen reading (discovered by layer A1)
+        if rng.below(3):
+            junk[n] = ["", "1", "0", "true", "v%d" % rng.below(1000)][rng.below(5)]
     return {"v": v, "order": [it["id"] for it in order], "entropy": entropy, "junk": junk}
 
 
-def run(tier, seed, sessim_bin):
+def run(tier, seed, sessim_bin, env_names=()):
     deps, rlib = build_host()
     per_family, n_harvest, n_variants = (2, 40, 24) if tier == "quick" else (8, 300, 128)
     rc, out = sh([sessim_bin, "emit-keys", "--seed", str(seed), "--per-family", str(per_family), "--repo", "/repo"])
@@ -160,7 +163,7 @@ def run(tier, seed, sessim_bin):
     w2, _, _, _, _ = run_rustc("w2", items, 7, {}, deps, rlib)
     if w1 != w2:
         raise Harness("A3: two identical rustc runs gave different expanded text (simulator not deterministic)")
-    plans = [variant_plan(rng, items, v) for v in range(n_variants)]
+    plans = [variant_plan(rng, items, v, env_names) for v in range(n_variants)]
 
     def do(plan):
         its = [by_id[i] for i in plan["order"]]
